@@ -15,7 +15,7 @@ from __future__ import annotations
 
 import ast
 import re
-from typing import Any, Dict, List, Optional, Set, Tuple
+from typing import Sequence,  Any, Dict, List, Optional, Set, Tuple
 
 from engine.fold import Folder
 from engine.kvtext import KeyResolver, conversion_of, emits_in, flatten, reader_keys, writer_keys
@@ -316,6 +316,166 @@ def fmt_lin(v: Tuple[int, int]) -> str:
     return f'{a}*S{b:+d}' if a and b else (f'{a}*S' if a else str(b))
 
 
+def v9_to_v14(ctx: Any, vm: Any) -> None:
+    # ---- V9: brace depth of every named block _export_displacement emits -------------------------------------------------
+    ed = vm.func('Side._export_displacement')
+    depth = 0
+    opened: List[str] = []          # stack of block names
+    emitted: Dict[str, Tuple[int, ast.AST]] = {}
+    pending = ''
+
+    def feed(text: str, node: ast.AST) -> None:
+        nonlocal depth, pending
+        for line in text.split('\n'):
+            t = line.replace('\x00', '').strip()
+            if not t:
+                continue
+            if t == '{':
+                depth += 1
+                opened.append(pending)
+                if pending:
+                    emitted.setdefault(pending, (depth - 1, node))
+                pending = ''
+            elif t.startswith('}'):
+                for _ in range(t.count('}')):
+                    depth -= 1
+                    if opened:
+                        opened.pop()
+            elif not t.startswith('"'):
+                pending = t.split()[0]
+
+    def tmpl(e: ast.AST) -> Optional[str]:
+        if isinstance(e, ast.Constant) and isinstance(e.value, str):
+            return e.value
+        if isinstance(e, ast.JoinedStr):
+            return ''.join(str(v.value) if isinstance(v, ast.Constant) else ('\x00' if ast.unparse(v.value) == 'ind' else 'X') for v in e.values)   # type: ignore[attr-defined]
+        if isinstance(e, ast.BinOp) and isinstance(e.op, ast.Add):
+            a, b = tmpl(e.left), tmpl(e.right)
+            if isinstance(e.left, ast.Name) and e.left.id == 'ind':
+                a = '\x00'
+            return None if a is None or b is None else a + b
+        return None
+
+    def walk(stmts: Sequence[ast.stmt]) -> None:
+        for st in stmts:
+            if isinstance(st, ast.Expr) and isinstance(st.value, ast.Call):
+                c = st.value
+                d = dotted(c.func) or ''
+                if d == 'buffer.write' and c.args:
+                    t = tmpl(c.args[0])
+                    if t is None:
+                        raise AnalysisError(f'_export_displacement: line {st.lineno}: written text not recognised')
+                    feed(t.replace('multiblend_color_X', 'multiblend_color_N'), st)
+                elif d == 'self._export_disp_rowset' and c.args and isinstance(c.args[0], ast.Constant):
+                    emitted.setdefault(c.args[0].value, (depth, st))         # a balanced block at the current depth
+            elif isinstance(st, (ast.For, ast.If, ast.While)):
+                d0 = depth
+                walk(st.body)
+                if isinstance(st, ast.For) and depth != d0:
+                    raise AnalysisError(f'_export_displacement: loop at line {st.lineno} changes the brace depth')
+                if isinstance(st, ast.If) and st.orelse:
+                    walk(st.orelse)
+    walk(ed.body)
+    if 'dispinfo' not in emitted:
+        raise AnalysisError('_export_displacement: dispinfo block not found')
+    base = emitted['dispinfo'][0] + 1
+    # names the parser fetches from the dispinfo tree
+    pd = vm.func('Side._parse_disp') if vm.has_func('Side._parse_disp') else None
+    wanted = {'normals', 'distances', 'offsets', 'offset_normals', 'alphas', 'triangle_tags', 'allowed_verts', 'multiblend', 'alphablend', 'multiblend_color_N'}
+    for name in sorted(wanted):
+        if name not in emitted:
+            ctx.shape('C06.V9', False, vm, ed, f'block `{name}` is not written by _export_displacement', func='Side._export_displacement', text=f'dispinfo block {name}')
+            continue
+        dep, node = emitted[name]
+        ctx.check('C06.V9', dep == base, vm, node, f'the `{name}` block is written at brace depth {dep}, but the blocks of dispinfo are at depth {base}: it ends up ' + ('outside dispinfo (a sibling of it inside the side), ' if dep < base else 'nested too deep, ')
+                  + 'where the parser - which looks it up in the dispinfo tree - never finds it', func='Side._export_displacement', text=f'dispinfo block {name}')
+    ctx.check('C06.V9', depth == 0, vm, ed, f'_export_displacement leaves {depth} block(s) open', func='Side._export_displacement', text='braces balanced')
+    # ---- V10 ------------------------------------------------------------------------------------------------------------------
+    fe = vm.func('EntityFixup.export')
+    ep = vm.func('Entity.parse')
+    wspec = [v.format_spec for js in ast.walk(fe) if isinstance(js, ast.JoinedStr) for i, v in enumerate(js.values) if isinstance(v, ast.FormattedValue) and i > 0 and isinstance(js.values[i - 1], ast.Constant) and str(js.values[i - 1].value).endswith('replace')]
+    rslice = [n for n in ast.walk(ep) if isinstance(n, ast.Assign) and isinstance(n.value, ast.Subscript) and dotted(n.value.value) == 'name' and isinstance(n.value.slice, ast.Slice)]
+    if len(wspec) != 1 or len(rslice) != 1:
+        ctx.shape('C06.V10', False, vm, fe, 'replaceNN writer format / reader slice not found', func='Entity.parse', text='replace index width')
+    else:
+        spec = ast.unparse(wspec[0]).strip("f'\"") if wspec[0] is not None else ''
+        sl = rslice[0].value.slice
+        fixed_tail = sl.lower is not None and isinstance(sl.lower, ast.UnaryOp) and sl.upper is None          # name[-2:]
+        from_prefix = sl.lower is not None and not isinstance(sl.lower, ast.UnaryOp) and sl.upper is None      # name[7:] / name[len('replace'):]
+        if fixed_tail:
+            ctx.check('C06.V10', False, vm, rslice[0], f'the exporter writes the index with format `{spec}` (a minimum width, 100 becomes three digits) but the parser takes `{ast.unparse(rslice[0].value)}`, a fixed number of trailing '
+                      'characters: replace100 is read as index 0, replace101 collides with replace01', func='Entity.parse', text='replace index width')
+        elif from_prefix:
+            lo = sl.lower.value if isinstance(sl.lower, ast.Constant) else None
+            ctx.check('C06.V10', lo in (None, len('replace')), vm, rslice[0], f'the index starts after the {len("replace")}-character prefix, the parser cuts at {lo}', func='Entity.parse', text='replace index width')
+        else:
+            ctx.shape('C06.V10', False, vm, rslice[0], 'reader slice form not recognised', func='Entity.parse', text='replace index width')
+    # ---- V11 ------------------------------------------------------------------------------------------------------------------
+    fv = vm.func('Strata2DViewport.from_vector')
+    tests = [n for n in ast.walk(fv) if isinstance(n, ast.Compare) and isinstance(n.ops[0], ast.In) and isinstance(n.comparators[0], (ast.Tuple, ast.Set, ast.List))]
+    sets_ = [(n.lineno, {ast.literal_eval(e) for e in n.comparators[0].elts}) for n in tests]
+    if not sets_:
+        ctx.shape('C06.V11', False, vm, fv, 'axis marker membership tests not found', func='Strata2DViewport.from_vector', text='marker precedence')
+    else:
+        marker_only = [ln for ln, st in sets_ if 0.0 not in st and 65536.0 in st]
+        with_zero = [ln for ln, st in sets_ if 0.0 in st]
+        ok = not with_zero or (bool(marker_only) and min(marker_only) < min(with_zero))
+        ctx.check('C06.V11', ok, vm, tests[0], 'the planar axis is recovered by testing every coordinate against (0, -65536, 65536) at once: an exported viewport whose other coordinate is 0 (e.g. `(65536 0 5)`) matches twice and '
+                  'parse raises "Multiple axes specified"; the +-65536 marker has to be looked for first', func='Strata2DViewport.from_vector', text='marker precedence')
+    # ---- V12 ------------------------------------------------------------------------------------------------------------------
+    vp = vm.func('VMF.parse')
+    ent_loops = [n for n in walk_no_nested(vp) if isinstance(n, ast.For) and any(isinstance(c, ast.Call) and dotted(c.func) == 'Entity.parse' for c in ast.walk(n))]
+    by_kind = [n for n in ent_loops if isinstance(n.iter, ast.Call) and dotted(n.iter.func) == 'tree.find_all']
+    if not ent_loops:
+        ctx.shape('C06.V12', False, vm, vp, 'entity parsing loop not found', func='VMF.parse', text='entities read in document order')
+    else:
+        ctx.check('C06.V12', not (len(by_kind) >= 2), vm, by_kind[-1] if by_kind else ent_loops[0], 'visible entities (`Entity` blocks) and hidden ones (`hidden` wrappers) are read in two separate passes: a hidden entity between visible ones '
+                  'moves to the end, so exporting the parsed map gives a different text', func='VMF.parse', text='entities read in document order')
+    # ---- V13 ------------------------------------------------------------------------------------------------------------------
+    def hidden_arg(c: ast.Call, pos: int) -> Optional[ast.AST]:
+        for k in c.keywords:
+            if k.arg == 'hidden':
+                return k.value
+        return c.args[pos] if len(c.args) > pos else None
+
+    def in_hidden_branch(n: ast.AST) -> bool:
+        p = vm.parents.get(n)
+        while p is not None and not isinstance(p, ast.FunctionDef):
+            q = vm.parents.get(p)
+            if isinstance(q, ast.If) and p in q.body and "'hidden'" in ast.unparse(q.test):
+                return True
+            p = q
+        return False
+    for qual, callee, pos in (('Entity.parse', 'Solid.parse', 2), ('VMF.parse', 'Entity.parse', 2)):
+        fn = vm.func(qual)
+        for c in ast.walk(fn):
+            if isinstance(c, ast.Call) and dotted(c.func) == callee:
+                a = hidden_arg(c, pos)
+                inside = in_hidden_branch(c)
+                if a is None:
+                    ok = not inside          # default hidden=False
+                elif isinstance(a, ast.Constant):
+                    ok = a.value is inside
+                else:
+                    ok = False
+                if qual == 'VMF.parse' and any(k.arg == '_worldspawn' for k in c.keywords):
+                    continue
+                ctx.check('C06.V13', ok, vm, c, f'`{ast.unparse(c)[:70]}` is {"inside" if inside else "outside"} the branch that handles a hidden{{}} wrapper but passes hidden={ast.unparse(a) if a is not None else "<default False>"}: '
+                          'the writer wraps exactly the hidden objects, so an object read from the wrapper must be hidden and every other one visible', func=qual, text=f'{callee} hidden flag ({"wrapper" if inside else "plain"})')
+    # ---- V14 ------------------------------------------------------------------------------------------------------------------
+    cam = vm.methods('Camera')
+    base_ok = 'self.map.cameras.index(self) + 1' in ast.unparse(cam['set_active']) and 'self.map.cameras.index(self) + 1' in ast.unparse(cam['is_active'])
+    ctx.shape('C06.V14', base_ok, vm, cam['set_active'], 'Camera.set_active / is_active use index + 1', func='Camera.set_active', text='active camera is 1-based')
+    for qual, fns in vm.all_funcs().items():
+        for fn in fns:
+            for n in walk_no_nested(fn):
+                if isinstance(n, ast.Compare) and len(n.ops) == 1 and (dotted(n.left) or '').endswith('.active_cam') and isinstance(n.comparators[0], ast.Call) and dotted(n.comparators[0].func) == 'len' \
+                        and (dotted(n.comparators[0].args[0]) or '').endswith('.cameras'):
+                    ctx.check('C06.V14', not isinstance(n.ops[0], (ast.GtE, ast.Eq)), vm, n, f'`{ast.unparse(n)}` treats the active camera number as 0-based; it is index + 1 (Camera.set_active), so the last camera being active '
+                              'satisfies this test and is reset', func=qual, text='active camera compared as 1-based')
+    ctx.check('C06.V14', True, vm, cam['is_active'], 'no 0-based comparison found', func='Camera.is_active', text='active camera comparisons scanned')
+
+
 def run(ctx: Any, prog: Program) -> None:
     vm = prog.module('vmf')
     res = KeyResolver(vm, Folder(prog, vm))
@@ -323,6 +483,13 @@ def run(ctx: Any, prog: Program) -> None:
                         'numeric closeness beyond the formatting class of each slot', 'Output.parse/as_keyvalue field splitting on separators inside parameters']
     ctx.assumptions += ['C01/C02 for the KeyValues text layer (quoted strings with escapes)']
     ctx.rule('C06.V1', 'writer and reader of each VMF object agree on the literal keys and block names', floor=100)
+    ctx.rule('C06.V9', 'displacement sub-blocks are written inside the dispinfo block, where the parser looks for them', floor=8)
+    ctx.rule('C06.V10', 'replaceNN: the parser reads the whole index the exporter writes (variable width)', floor=1)
+    ctx.rule('C06.V11', 'Strata 2D viewports: the +-65536 axis marker takes precedence over zero coordinates when the axis is recovered', floor=1)
+    ctx.rule('C06.V12', 'VMF.parse reads visible and hidden entities in one pass over the document (order preserved)', floor=1)
+    ctx.rule('C06.V13', 'objects read from a hidden{} wrapper are built hidden, all others visible (the writer wraps exactly the hidden ones)', floor=3)
+    ctx.rule('C06.V14', 'the active camera number is 1-based everywhere it is compared with the number of cameras', floor=2)
+    v9_to_v14(ctx, vm)
     ctx.rule('C06.V2', 'str-typed values written inside quotes are passed through escape_text', floor=12)
     ctx.rule('C06.V3', 'significant-digit float formatting only on the fields the property allows (rotation, delay, Vec4)', floor=3)
     ctx.rule('C06.V4', 'displacement row blocks: written tokens per row equal what the reader demands', floor=10)
@@ -764,6 +931,15 @@ def elt_token_alternatives(elt: ast.AST, tokens_of_type: Dict[str, int]) -> Opti
 
 
 MUTANTS = [
+    {'id': 'multiblend_outside_dispinfo', 'file': 'vmf.py', 'find': "        buffer.write(f'{ind}\\t\\t}}\\n')\n\n        if disp_multiblend and any(vert.multi_blend for vert in self._disp_verts):", 'replace': "        buffer.write(f'{ind}\\t\\t}}\\n{ind}\\t}}\\n')\n\n        if disp_multiblend and any(vert.multi_blend for vert in self._disp_verts):",
+     'extra': [{'file': 'vmf.py', 'find': "        # Close the dispinfo block - the multiblend data lives inside it.\n        buffer.write(f'{ind}\\t}}\\n')\n", 'replace': ""}], 'expect': 'C06.V9'},
+    {'id': 'entities_two_passes', 'file': 'vmf.py', 'find': "        for item in tree:\n            if item.name == 'entity':\n                map_obj.add_ent(\n                    Entity.parse(map_obj, item, False)  # hidden=False\n                )\n            elif item.name == 'hidden':\n                for ent in item:\n                    map_obj.add_ent(\n                        Entity.parse(map_obj, ent, True)  # hidden=True\n                    )\n",
+     'replace': "        for item in tree.find_all('Entity'):\n            map_obj.add_ent(\n                Entity.parse(map_obj, item, False)  # hidden=False\n            )\n        for hidden_ent in tree.find_all('hidden'):\n            for ent in hidden_ent:\n                map_obj.add_ent(\n                    Entity.parse(map_obj, ent, True)  # hidden=True\n                )\n", 'expect': 'C06.V12'},
+    {'id': 'fixup_index_two_chars', 'file': 'vmf.py', 'find': "                ind_str = name[7:]", 'replace': "                ind_str = name[-2:]", 'expect': 'C06.V10'},
+    {'id': 'viewport_zero_is_marker', 'file': 'vmf.py', 'find': "        markers: list[Axis] = [axis for axis in ('x', 'y', 'z') if pos[axis] in (-65536.0, 65536.0)]", 'replace': "        markers: list[Axis] = [axis for axis in ('x', 'y', 'z') if pos[axis] in (0.0, -65536.0, 65536.0)]", 'expect': 'C06.V11'},
+    {'id': 'hidden_solid_inherits_flag', 'file': 'vmf.py', 'find': "solids.append(Solid.parse(vmf_file, brush_prop, hidden=True))", 'replace': "solids.append(Solid.parse(vmf_file, brush_prop, hidden=hidden))", 'expect': 'C06.V13'},
+    {'id': 'active_cam_zero_based', 'file': 'vmf.py', 'find': "        map_spawn = tree.find_block('world', or_blank=True)\n", 'replace': "        if map_obj.active_cam >= len(map_obj.cameras):\n            map_obj.active_cam = -1\n        map_spawn = tree.find_block('world', or_blank=True)\n", 'expect': 'C06.V14'},
+    {'id': 'active_cam_one_based_ok', 'file': 'vmf.py', 'find': "        map_spawn = tree.find_block('world', or_blank=True)\n", 'replace': "        if map_obj.active_cam > len(map_obj.cameras):\n            map_obj.active_cam = -1\n        map_spawn = tree.find_block('world', or_blank=True)\n", 'expect': None, 'note': 'negative control: a 1-based validity check'},
     {'id': 'fixup_split_whitespace', 'file': 'vmf.py', 'find': "                        vals = item.value.split(\" \", 1)", 'replace': "                        vals = item.value.split(None, 1)", 'expect': 'C06.V7'},
     {'id': 'tri_tags_wrong_stride', 'file': 'vmf.py', 'find': "                    vert = self._disp_verts[y * size + x]", 'replace': "                    vert = self._disp_verts[y * tri_tags_count + x]", 'expect': 'C06.V8'},
     {'id': 'world_groups_dropped', 'file': 'vmf.py', 'find': "                    include_groups=_is_worldspawn,", 'replace': "                    include_groups=not _is_worldspawn,", 'expect': 'C06.V6'},
